@@ -12,13 +12,14 @@
 (* a fresh library.  All invariants of Library are evaluated in every      *)
 (* trace state.                                                            *)
 (***************************************************************************)
-EXTENDS Library, Json, IOUtils, TLCExt
+EXTENDS RawStore, Json, IOUtils, TLCExt
 
-VARIABLE l          \* index of the next log record
+VARIABLES l,         \* index of the next log record
+          tinfo      \* track id -> [path, base, ext] as given to create_track (inputs, for C11)
 
 Log == ndJsonDeserialize(IOEnv.TRACE)
 
-tvars == <<vars, l>>
+tvars == <<vars, l, tinfo>>
 
 Opt(x) == IF x = Root THEN <<>> ELSE <<x>>          \* options are logged as arrays of length <= 1
 SetOpt(S) == IF S = {} THEN {<<>>} ELSE {<<x>> : x \in S}
@@ -77,6 +78,12 @@ NoWrite(r) ==
 
 ObsNow(r) == ObsOK(r.obs, fam', live', dead', par', nm', kids', tlive', tdead', mem')
 
+\* C11: when the record carries the raw projection, it must store exactly the abstract state.
+RawNow(r, TI) ==
+    "raw" \in DOMAIN r =>
+        IF fam' = "v2" THEN RawV2OK(r.raw, live', par', nm', kids', tlive', mem', TI)
+        ELSE RawV1OK(r.raw, live', par', nm', tlive', mem', TI)
+
 -----------------------------------------------------------------------------
 Has(r, f) == f \in DOMAIN r
 Faulted(r) == Has(r, "fault") /\ r.fault.fired
@@ -106,8 +113,13 @@ TCall ==
           ELSE Step(r)
        /\ last'.out = r.out
        /\ (r.out = "throw" => r.std)          \* only exceptions derived from std::exception
+       /\ (Faulted(r) => r.dsame)            \* ... and the stored tables are byte-identical
        /\ ObsNow(r)
        /\ NoWrite(r)
+       /\ tinfo' = IF r.op = "create_track" /\ r.out = "ok"
+                   THEN (r.new :> [path |-> r.path, base |-> r.base, ext |-> r.ext]) @@ tinfo
+                   ELSE tinfo
+       /\ RawNow(r, tinfo')
     /\ l' = l + 1
 
 \* Closing every handle and loading the library again: nothing observable changes, the loader
@@ -122,7 +134,8 @@ TReopen ==
        /\ r.loaded = r.want
        /\ ObsOK(r.obs, fam', live', {}, par', nm', kids', tlive', {}, mem')   \* no handle survives
        /\ NoWrite(r)
-    /\ l' = l + 1
+       /\ RawNow(r, tinfo)
+    /\ l' = l + 1 /\ UNCHANGED tinfo
 
 TReset ==
     /\ l <= Len(Log)
@@ -136,9 +149,11 @@ TReset ==
        /\ kf' = ""
        /\ ObsNow(r)
        /\ NoWrite(r)
+       /\ tinfo' = <<>>
+       /\ RawNow(r, <<>>)
     /\ l' = l + 1
 
-TInit == InitWith("v2") /\ l = 1
+TInit == InitWith("v2") /\ l = 1 /\ tinfo = <<>>
 TNext == TCall \/ TReopen \/ TReset
 TSpec == TInit /\ [][TNext]_tvars
 
